@@ -95,6 +95,7 @@ TCbRet == Ev("cb_ret") /\ CbRet(ZCbRet(R)) /\ UNCHANGED xVars
 TClone == Ev("clone") /\ CloneStep(ZCloneSrc(R.src), ZId(R.new), R.nth) /\ UNCHANGED xVars
 TClonePanic == Ev("clone_panic") /\ ClonePanicStep(R.src) /\ UNCHANGED xVars
 TMkDef == Ev("mkdef") /\ DefaultStep(ZId(R.id)) /\ UNCHANGED xVars
+TMkDefPanic == Ev("mkdef_panic") /\ DefaultPanicStep /\ UNCHANGED xVars
 TDrop == /\ Ev("drop")
          /\ \E e \in DropCandidates(R.id) : (DropEv(e, R.panic) \/ DropX(e, R.panic))
          /\ UNCHANGED xVars
@@ -105,7 +106,7 @@ TX == l <= Len(Rec) /\ l' = l + 1 /\ XEvent(R)
 
 TNext ==
     \/ TCaseStart \/ TCaseEnd \/ TMk \/ TMkElem \/ TCall \/ TRet \/ TUnwound
-    \/ TCb \/ TCbRet \/ TClone \/ TClonePanic \/ TMkDef \/ TDrop
+    \/ TCb \/ TCbRet \/ TClone \/ TClonePanic \/ TMkDef \/ TMkDefPanic \/ TDrop
     \/ TRelease \/ TReleased \/ TReleaseElem \/ TX
 
 TraceSpec == TInit /\ [][TNext]_tvars
